@@ -2,6 +2,8 @@
 O1 recovery order."""
 from collections import defaultdict
 
+import re
+
 from common import *
 from engine import RuleResult
 
@@ -76,6 +78,10 @@ def _bounding_edges(b, pname):
     return out
 
 
+# deepest nesting that is certainly within a 2 MiB worker stack: 1024 levels × at most 1 KiB per level of the recursive parser
+R1_MAX_DEPTH = 1024
+
+
 def r1_bounded_recursion(ctx):
     r = RuleResult("R1", "every cycle of the crate-local call graph carries a ranking argument: an integer parameter that each cycle-closing call passes on increased by a constant ≥ 1, with the call dominated by a comparison of that parameter against a constant that bounds it (so nesting depth — hence stack use — is bounded whatever the input); no cycle at all is trivially fine", floor=1)
     prog = ctx.prog
@@ -114,9 +120,15 @@ def r1_bounded_recursion(ctx):
                                 detail = "parameter %s grows by %d per level but is never compared with a constant bound" % (pname, k)
                                 continue
                             dom = bb not in reach(b, [0], blocked_edges=lambda e: (e.src, e.dst) in be)
-                            if dom:
+                            bounds = sorted(set(str(x) for x in be.values()))
+                            nums = [int(x) for x in bounds if re.match(r"^-?\d+$", x)]
+                            if dom and (len(nums) != len(bounds)):
+                                detail = "%s + %d is compared with %s, whose value the extractor could not evaluate: the depth bound is unknown" % (pname, k, bounds)
+                            elif dom and max(nums) > R1_MAX_DEPTH:
+                                detail = "%s + %d, bounded by %s — more than %d levels: each level is a stack frame of the recursive parser (several hundred bytes), a tokio worker has 2 MiB; a bound this large bounds nothing and a deeply nested frame overflows the stack, which aborts the process" % (pname, k, bounds, R1_MAX_DEPTH)
+                            elif dom:
                                 ranked = True
-                                detail = "%s + %d, bounded by %s" % (pname, k, sorted(set(str(x) for x in be.values())))
+                                detail = "%s + %d, bounded by %s (≤ %d levels)" % (pname, k, bounds, R1_MAX_DEPTH)
                             else:
                                 detail = "the recursive call is reachable without the bound on %s having been checked" % pname
                 r.add(f, "recursive call %s → %s has a bounded ranking argument" % (b.name.split("::")[-1], cb.name.split("::")[-1]), ranked, where(b, bb), detail)
